@@ -112,7 +112,7 @@ CONSTANTS
 UNIVERSE_INVARIANTS = "INVARIANT KeysSummed\nINVARIANT ChainsPartition\nINVARIANT PartnerSymmetric\nINVARIANT SignLawSatisfiable\nINVARIANT DOnShell\nINVARIANT NonEmpty\n"
 
 
-def universe_cases(chk, *, stride, offset, which, maxspin2=2, etas="EtaGiven", name="universe", nfs=3):
+def universe_cases(chk, *, stride, offset, which, maxspin2=2, etas="EtaGiven", name="universe", nfs=3, formalism="helicity"):
     """Every `stride`-th reaction (from `offset`) of the universe TLC enumerates for spec/Amplitude_MC.tla, formulated with the real
     builder: -> cases in the format of build_cases.  stride = 1: exhaustive within the constants."""
     import ampform
@@ -128,10 +128,20 @@ def universe_cases(chk, *, stride, offset, which, maxspin2=2, etas="EtaGiven", n
     # a stable order (TLC's print order is its own): by canonical text
     descs.sort(key=lambda d: (sorted(map(sorted, d["tree"])), sorted((sorted(k), v) for k, v in d["spin"].items()), sorted((sorted(k), v) for k, v in d["eta"].items())))
     chk.add_tlc(f"{name}_enumeration", res, traces=0)
+    if formalism != "helicity":
+        # no parity factors in the canonical basis: one descriptor per (tree, spins)
+        seen, uniq = set(), []
+        for d in descs:
+            key = (tuple(sorted(map(tuple, map(sorted, d["tree"])))), tuple(sorted((tuple(sorted(k_)), v) for k_, v in d["spin"].items())))
+            if key not in seen:
+                seen.add(key)
+                uniq.append(d)
+        descs = uniq
     out = []
+    idbase = 1_000_000 * nfs + (0 if formalism == "helicity" else 500_000)
     for k, d in enumerate(descs[offset::stride]):
-        spec = U.descriptor_spec(d)
-        if spec is None:
+        spec = U.descriptor_spec(d, formalism)
+        if spec is None or len(spec["transitions"]) > 150:
             continue
         label = f"universe{nfs}:{k * stride + offset}"
         reaction = ampl.make_reaction(spec)
@@ -141,12 +151,12 @@ def universe_cases(chk, *, stride, offset, which, maxspin2=2, etas="EtaGiven", n
             out.append((label, reaction, {}, None, {"error": f"{type(ex).__name__}: {ex}"}))
             continue
         try:
-            rec = U.model_record(1_000_000 * nfs + len(out), reaction, model, do_formula="formula" in which, do_parity="parity" in which, do_closure="closure" in which)
+            rec = U.model_record(idbase + len(out), reaction, model, do_formula="formula" in which, do_parity="parity" in which, do_closure="closure" in which)
         except ampl.AmpProjectionError as ex:
             chk.spec_drift(f"amplitude term shape not understood ({label}): {ex}")
             continue
         rec["label"] = label
         rec["cfg"] = {}
         out.append((label, reaction, {}, model, rec))
-    chk.part(name, descriptors_enumerated_by_TLC=len(descs), formulated=len(out), stride=stride, offset=offset, constants=f"{nfs} final states, spins <= {maxspin2}/2, eta in {etas}")
+    chk.part(name, descriptors_enumerated_by_TLC=len(descs), formulated=len(out), stride=stride, offset=offset, constants=f"{nfs} final states, spins <= {maxspin2}/2, eta in {etas}, {formalism}")
     return out
